@@ -92,6 +92,10 @@ pub struct Case {
     pub start_after: usize,
     /// restart the discoverer once after this many producer steps (None = never)
     pub restart_after: Option<usize>,
+    /// restart the discoverer once right after it has handed out this many events (None = never):
+    /// an application that reacts to what it is told, possibly with further events of the same
+    /// bus event still queued inside the discoverer
+    pub restart_after_events: Option<usize>,
     pub current_only: bool,
     /// the producer pauses before step `start_after` until the discoverer is built and the
     /// lifetimes are bound (otherwise it races with them)
@@ -278,7 +282,18 @@ fn make(case: &Case) -> (Vec<ClientCfg>, Vec<(String, App)>) {
                         producer_done = true;
                         break;
                     }
-                    Ev::Event(Some(e)) => events.push(e),
+                    Ev::Event(Some(e)) => {
+                        events.push(e);
+                        if !restarted && case2.restart_after_events == Some(events.len()) {
+                            restarted = true;
+                            events.clear();
+                            if case2.current_only {
+                                disc.restart_current_only().await.map_err(|e| format!("restart: {e:?}"))?;
+                            } else {
+                                disc.restart().await.map_err(|e| format!("restart: {e:?}"))?;
+                            }
+                        }
+                    }
                     Ev::Event(None) => {
                         if !case2.current_only {
                             return Err("discoverer stream ended although it listens for new events".into());
@@ -344,7 +359,20 @@ fn make(case: &Case) -> (Vec<ClientCfg>, Vec<(String, App)>) {
             let mut done2 = done_rx2;
             let wait = h.wait_for_object(Some(ou(1)), Vec::<ServiceUuid>::new());
             let mut wait = Box::pin(wait);
+            // the lifetimes bound so far are awaited too (as `lt.ended()` would be by an application):
+            // they are polled whenever one of their events arrives, in particular between the events
+            // that report the current state; (id, clock, had the producer begun to destroy it?)
+            let mut early_ended: Vec<(ObjectId, bool)> = Vec::new();
             let mut found = poll_fn(|cx| {
+                for (id, lt) in early_bound.iter_mut() {
+                    if early_ended.iter().any(|(i, _)| i == id) {
+                        continue;
+                    }
+                    if lt.poll_ended(cx).is_ready() {
+                        let begun = w3.borrow().incs.iter().find(|i| i.id == Some(*id)).map(|i| i.destroy_started_at.is_some()).unwrap_or(true);
+                        early_ended.push((*id, begun));
+                    }
+                }
                 if let Poll::Ready(r) = wait.as_mut().poll(cx) {
                     return Poll::Ready(Some(r));
                 }
@@ -421,8 +449,13 @@ fn make(case: &Case) -> (Vec<ClientCfg>, Vec<(String, App)>) {
                     }
                 }
             }
+            for (id, begun) in &early_ended {
+                if !begun {
+                    result = result.and(Err(format!("lifetime bound early to {id:?} ended before the producer began to destroy the object")));
+                }
+            }
             for (id, mut lt) in early_bound {
-                let ended_now = poll_fn(|cx| Poll::Ready(lt.poll_ended(cx).is_ready())).await;
+                let ended_now = early_ended.iter().any(|(i, _)| *i == id) || poll_fn(|cx| Poll::Ready(lt.poll_ended(cx).is_ready())).await;
                 let w = w3.borrow();
                 let alive = w.final_state.values().any(|(oid, _)| *oid == id);
                 if ended_now && alive {
@@ -615,19 +648,30 @@ pub fn cases(tier: Tier) -> Vec<Case> {
                 }
                 // synchronised start: everything after step s happens in front of a live discoverer
                 if s < len {
-                    v.push(Case { prog: prog.clone(), start_after: s, restart_after: None, current_only: false, sync_start: true, transport: Transport::Unbounded, minors: [20, 20] });
+                    v.push(Case { prog: prog.clone(), start_after: s, restart_after: None, restart_after_events: None, current_only: false, sync_start: true, transport: Transport::Unbounded, minors: [20, 20] });
+                }
+                // the same over a transport that hands over one message at a time (events that the
+                // broker sends in one go reach the client in separate polls)
+                if s < len && full {
+                    v.push(Case { prog: prog.clone(), start_after: s, restart_after: None, restart_after_events: None, current_only: false, sync_start: true, transport: Transport::Bounded(1), minors: [20, 20] });
+                }
+                // a restart triggered by the k-th event the discoverer hands out
+                if full && (s == 0 || s == len) {
+                    for k in 1..=3 {
+                        v.push(Case { prog: prog.clone(), start_after: s, restart_after: None, restart_after_events: Some(k), current_only: false, sync_start: s < len, transport: Transport::Unbounded, minors: [20, 20] });
+                    }
                 }
                 // racing start
                 if full || s == len {
-                    v.push(Case { prog: prog.clone(), start_after: s, restart_after: None, current_only: false, sync_start: false, transport: Transport::Unbounded, minors: [20, 20] });
+                    v.push(Case { prog: prog.clone(), start_after: s, restart_after: None, restart_after_events: None, current_only: false, sync_start: false, transport: Transport::Unbounded, minors: [20, 20] });
                 }
                 if len >= 2 && s == 0 && full {
                     for r in 1..len {
-                        v.push(Case { prog: prog.clone(), start_after: 0, restart_after: Some(r), current_only: false, sync_start: true, transport: Transport::Bounded(1), minors: [14, 20] });
+                        v.push(Case { prog: prog.clone(), start_after: 0, restart_after: Some(r), restart_after_events: None, current_only: false, sync_start: true, transport: Transport::Bounded(1), minors: [14, 20] });
                     }
-                    v.push(Case { prog: prog.clone(), start_after: 0, restart_after: Some(len - 1), current_only: false, sync_start: false, transport: Transport::Unbounded, minors: [20, 20] });
-                    v.push(Case { prog: prog.clone(), start_after: s, restart_after: None, current_only: true, sync_start: false, transport: Transport::Unbounded, minors: [20, 17] });
-                    v.push(Case { prog: prog.clone(), start_after: s, restart_after: Some(len - 1), current_only: true, sync_start: true, transport: Transport::Unbounded, minors: [20, 17] });
+                    v.push(Case { prog: prog.clone(), start_after: 0, restart_after: Some(len - 1), restart_after_events: None, current_only: false, sync_start: false, transport: Transport::Unbounded, minors: [20, 20] });
+                    v.push(Case { prog: prog.clone(), start_after: s, restart_after: None, restart_after_events: None, current_only: true, sync_start: false, transport: Transport::Unbounded, minors: [20, 17] });
+                    v.push(Case { prog: prog.clone(), start_after: s, restart_after: Some(len - 1), restart_after_events: None, current_only: true, sync_start: true, transport: Transport::Unbounded, minors: [20, 17] });
                 }
             }
         }
@@ -709,4 +753,24 @@ pub fn run(tier: Tier) -> ! {
             "'never while the scope is alive' is judged against the moment the producer begins the destruction".into(),
         ],
     );
+}
+
+/// Re-run one recorded violation (the case is identified by its printed form).
+pub fn replay(w: &serde_json::Value) -> ! {
+    let want = w["case"].as_str().unwrap_or("").to_string();
+    let choices: Vec<u32> = w["choices"].as_array().map(|a| a.iter().map(|x| x.as_u64().unwrap_or(0) as u32).collect()).unwrap_or_default();
+    let case = [Tier::Quick, Tier::Thorough]
+        .into_iter()
+        .flat_map(cases)
+        .find(|c| format!("{c:?}") == want)
+        .unwrap_or_else(|| mcx::machinery(format!("no discovery case {want}")));
+    println!("replaying case {case:?} with {} choices", choices.len());
+    let mut verdicts = Vec::new();
+    for _ in 0..2 {
+        let mut ch = Chooser::new(&choices);
+        verdicts.push(run_case(&case, &mut ch));
+    }
+    println!("first run : {:?}", verdicts[0]);
+    println!("second run: {:?}", verdicts[1]);
+    std::process::exit(if verdicts[0].is_some() { 1 } else { 0 });
 }
